@@ -40,6 +40,9 @@ var registry = []*HarnessSpec{
 	{Prop: "C02", Name: "zzH02prefix", Pkg: pkgConfig, Tier: "quick", Bounds: "one prefix stanza: prefix string empty / unparsable / any IPv6 or IPv4 prefix incl. host bits, 4in6; both lifetimes of every shape; flags absent/true/false; deprecated"},
 	{Prop: "C02", Name: "zzH02route", Pkg: pkgConfig, Tier: "quick", Bounds: "one route stanza: prefix string of every shape, lifetime of every shape, preference low/high/absent/unknown, deprecated"},
 	{Prop: "C02", Name: "zzH02rdnss", Pkg: pkgConfig, Tier: "quick", Bounds: "one rdnss stanza: lifetime of every shape, 0..3 server strings each unparsable / IPv4 / any IPv6 address"},
+	{Prop: "C02", Name: "zzH02overlap", Pkg: pkgConfig, Tier: "quick", Params: map[string]int{"n": 2, "n@thorough": 3}, Bounds: "2 (3) prefix or route stanzas with arbitrary canonical IPv6 prefixes (incl. the wildcards)"},
+	{Prop: "C02", Name: "zzH02iface", Pkg: pkgConfig, Tier: "quick", Bounds: "name set/unset x 0..2 names x monitor x advertise x garbage advertising keys"},
+	{Prop: "C02", Name: "zzH02parse", Pkg: pkgConfig, Tier: "quick", Bounds: "0..3 interface groups of 1-2 names from a pool of three; debug address set/unset, resolvable or not; decoder failing or not"},
 	{Prop: "C02", Name: "zzH02pref64", Pkg: pkgConfig, Tier: "quick", Bounds: "one pref64 stanza: prefix absent / empty / unparsable / any IPv4 or IPv6 prefix of any length"},
 	{Prop: "C02", Name: "zzH02dnssl", Pkg: pkgConfig, Tier: "quick", Bounds: "one dnssl stanza: lifetime of every shape, 0..3 names from three tokens"},
 	{Prop: "C19", Name: "zzH19a", Pkg: pkgNetstate, Tier: "quick", Params: map[string]int{"subs": 2, "changes": 3, "subs@thorough": 3, "changes@thorough": 4}, Bounds: "2 (3) subscribers with any non-empty 7-bit mask on one of two interfaces; 3 (4) changes, each any non-zero 7-bit value, on either interface"},
@@ -72,6 +75,7 @@ var registry = []*HarnessSpec{
 	{Prop: "C16", Name: "zzH16wall", Pkg: pkgPlugin, Tier: "thorough", Params: map[string]int{"mono": 0, "moving": 0}, Bounds: "same with wall-clock-only readings (years 1970..2242)"},
 	{Prop: "C01", Name: "zzH01b", Pkg: pkgPlugin, Tier: "quick", Bounds: "max_interval any ns value in [4s,1800s]"},
 	{Prop: "C13", Name: "zzH13", Pkg: pkgPlugin, Tier: "quick", Params: map[string]int{"n": 3, "n@thorough": 4}, Bounds: "address list of n=2 (thorough 3) fully symbolic entries: either family, any length, all six flags; stanza flags/lifetimes symbolic; listing failure"},
+	{Prop: "C05", Name: "zzH05b", Pkg: pkgCorerad, Tier: "quick", NoNative: true, Params: map[string]int{"iterations": 5, "iterations@thorough": 8}, Bounds: "the multicast loop as a goroutine for 5 (8) iterations with harness-owned timers, any accepted-range (min,max) at ns granularity, any draws; then cancellation"},
 	{Prop: "C05", Name: "zzH05a", Pkg: pkgCorerad, Extra: []string{pkgConfig}, Tier: "quick", Bounds: "i any int>=0; (min,max) any ns-granular pair with 4s<=max<=1800s, 3s<=min<=max; Int63n any value in [0,n)"},
 }
 
